@@ -18,7 +18,7 @@
      eko                   = enum_key_is_object, read from ak/ppobj.py on every run *)
 From Coq Require Import ZArith List Bool.
 From AK Require Import Common.Sx Common.Err C10.Sgr C10.SgrLemmas C10.Base gen.C10_Consts C10.Model
-  C10.Lemmas C10.LemmasInv C10.LemmasRun C10.LemmasPure C10.LemmasTop C10.LemmasWit.
+  C10.Lemmas C10.LemmasInv C10.LemmasRun C10.LemmasPure C10.LemmasTop C10.LemmasSub C10.LemmasWit.
 Import ListNotations.
 Open Scope Z_scope.
 
@@ -167,17 +167,59 @@ Proof. exact hist_single_palette. Qed.
 Print Assumptions history_independent_single_palette.
 
 (* PARTIAL, colour, compound objects (tables, record formatters): the palette of the
-   object has the colours of the configuration in force and every enum cell is
-   coloured by its current palette (enum_cache_transparent), but the colours of
-   the sub-palettes (read when each was first requested) are only shown to be
-   well-formed, not given in closed form *)
+   object has the colours of the configuration in force, every enum cell is
+   coloured by its current palette (enum_cache_transparent), and every
+   sub-palette the object uses has the colours of SOME registration-extension
+   cf' of the configuration in force (conf_grows: same no_color flag, syntax map
+   extended, more classes registered) -- the state of the configuration when
+   that sub-palette was first requested, possibly by an earlier rendering.
+   Which extension is not determined by the configuration alone: that is the
+   channel of the open finding late-registered-parent *)
 Theorem history_independent_compound_partial : forall fts w obj copt mode ids w' outs,
   reach fts w -> obj_ok obj ->
   step eko fts w (ORender obj copt false PNone mode ids) = Ok (w', outs) ->
-  exists subc, (forall K, cwf (subc K)) /\
-    outs = texts_of mode (pure_lines fts (top_colors (conf_in_force w copt) (o_cls obj)) subc (o_lines obj)).
-Proof. intros fts w obj copt mode ids w' outs H. exact (render_colour_top fts _ _ _ _ _ _ _ (inv_reachable fts w H)). Qed.
+  exists subc,
+    outs = texts_of mode (pure_lines fts (top_colors (conf_in_force w copt) (o_cls obj)) subc (o_lines obj)) /\
+    forall K, In K (lines_subs (o_lines obj)) ->
+      exists cf', conf_grows (conf_in_force w copt) cf' /\ subc K = local_colors cf' K false.
+Proof. intros fts w obj copt mode ids w' outs H. exact (render_colour_subs fts _ _ _ _ _ _ _ (inv_reachable fts w H)). Qed.
 Print Assumptions history_independent_compound_partial.
+
+(* GUARDED closed form for compound objects: once every syntax id used by the object's
+   palette classes is present and resolved in the configuration in force (warm_cls:
+   e.g. after the classes have registered -- from the second rendering on), the
+   coloured text is a closed formula of the object and of the configuration's
+   (no_color flag, syntax map); history does not enter.  The refuted case is
+   exactly the cold one. *)
+Theorem history_independent_compound_warm : forall fts w obj copt mode ids w' outs,
+  reach fts w -> obj_ok obj ->
+  warm_cls (conf_in_force w copt) (o_cls obj) = true ->
+  (forall K, In K (lines_subs (o_lines obj)) -> warm_cls (conf_in_force w copt) K = true) ->
+  step eko fts w (ORender obj copt false PNone mode ids) = Ok (w', outs) ->
+  outs = texts_of mode (pure_lines fts (local_colors (conf_in_force w copt) (o_cls obj) false)
+                                   (fun K => local_colors (conf_in_force w copt) K false) (o_lines obj)).
+Proof. intros fts w obj copt mode ids w' outs H. exact (render_colour_warm fts _ _ _ _ _ _ _ (inv_reachable fts w H)). Qed.
+Print Assumptions history_independent_compound_warm.
+
+(* the guard is satisfiable and not vacuous: a fresh default configuration is cold for
+   the title palette, after one rendering of a table with a number column it is
+   warm for the three classes the table uses *)
+Example warm_satisfiable :
+  let tbl := mkObj table_cls [record_cls; title_cls]
+               [[IChunk None 1 [43]; IChunk (Some title_cls) 4 [105]; IChunk (Some record_cls) 16 [49]]] in
+  exists w0' o0 w1 o1,
+    run_ops eko [] w0 [ONewConf 0 false []] = Ok (w0', o0) /\
+    warm_cls (conf_in_force w0' (Some 0)) title_cls = false /\
+    run_ops eko [] w0 [ONewConf 0 false []; ORender tbl (Some 0) false PNone 0 [1; 2; 3]] = Ok (w1, o1) /\
+    warm_cls (conf_in_force w1 (Some 0)) table_cls = true /\
+    warm_cls (conf_in_force w1 (Some 0)) title_cls = true /\ warm_cls (conf_in_force w1 (Some 0)) record_cls = true /\
+    lines_subs (o_lines tbl) = [title_cls; record_cls] /\ obj_ok tbl.
+Proof.
+  cbv zeta. eexists. eexists. eexists. eexists. split; [vm_compute; reflexivity|]. split; [vm_compute; reflexivity|].
+  split; [vm_compute; reflexivity|]. split; [vm_compute; reflexivity|]. split; [vm_compute; reflexivity|].
+  split; [vm_compute; reflexivity|]. split; [reflexivity|repeat constructor].
+Qed.
+Print Assumptions warm_satisfiable.
 
 (* REFUTED on the faithful model (open finding late-registered-parent): a
    configuration entry whose parent id is registered later by a sub-palette
